@@ -598,13 +598,66 @@ def r4c(ctx):
 
 RULES["R10.4"] += " | layer-count: Dense::parameters = inputs*outputs (+ outputs iff bias), (De)Convolution::parameters = kernels.len() * channels * height * width of a kernel (polynomial identity on the E6 summary)"
 
+# `&mut self` methods of Vec / slices that hand out the entries (to be updated in place) without changing which entry sits where
+_ENTRY_ACCESS = ("iter_mut", "par_iter_mut", "get_mut", "last_mut", "first_mut", "index_mut", "as_mut_slice", "as_mut", "chunks_mut", "deref_mut")
+
+
+RULES["R10.1"] += " | layer-positions-fixed: over every function of the crate, Feedback.layers is never reordered, dropped from, replaced or handed out as a whole by &mut after construction (entries are updated in place only), so position i keeps holding the i-th layer of the unrolled block"
+
+
+def layer_list_stable(ctx, rule, owner):
+    """Who-may-restructure rule for the `layers` field of `owner` (network::Network / feedback::Feedback): once a layer has been appended its
+    position is fixed.  Over every function of the crate: a `&mut self` Vec/slice method on a place `<x>.layers` (x of type owner) is either an
+    entry accessor (iter_mut, get_mut ..) or `push`; the field (or one of its entries) is never assigned to, and never handed out as `&mut` to a call."""
+    c = ctx.crate
+    short_owner = owner.rsplit("::", 1)[-1]
+
+    def is_layers(n):
+        n = strip(n)
+        if n is None or n.get("k") != "field" or n.get("f") != "layers":
+            return False
+        t = (c.ty(strip(n["b"])) or "").replace("&mut ", "").replace("&", "").strip()
+        return t == owner
+    sites, bad = 0, []
+    for path, fn in sorted(c.fns.items()):
+        for x in walk(fn["body"]):
+            k = x.get("k")
+            if k == "mcall" and is_layers(x["recv"]):
+                sites += 1
+                if (c.tya(x["recv"]) or "").startswith("&mut") and x["name"] not in _ENTRY_ACCESS and x["name"] != "push" and x["name"] not in ("is_empty", "len", "iter", "first", "last", "get", "clone"):
+                    bad.append((path, x["name"], c.loc(fn, x)))
+            elif k in ("assign", "assignop"):
+                l_ = strip(x["l"])
+                whole = is_layers(l_)
+                entry = l_ is not None and l_.get("k") == "index" and is_layers(l_["b"])
+                if whole or entry:
+                    sites += 1
+                    bad.append((path, "assignment", c.loc(fn, x)))
+            elif k in ("call", "mcall"):
+                pass
+            if k in ("call", "mcall"):
+                for a in x.get("args") or []:
+                    a0 = a
+                    while a0 is not None and a0.get("k") == "blk" and not a0["b"]["stmts"] and a0["b"]["tail"] is not None:
+                        a0 = a0["b"]["tail"]
+                    if a0 is not None and a0.get("k") == "ref" and a0.get("mut") and is_layers(a0["x"]):
+                        sites += 1
+                        bad.append((path, "&mut-argument-of-" + str(x.get("callee", "?")).rsplit("::", 1)[-1], c.loc(fn, x)))
+    ctx.check(rule, short_owner + ":layer-positions-fixed", not bad and sites > 0,
+              "layer-list-restructured:" + ",".join(sorted({"%s:%s" % (b[0].rsplit("::", 1)[-1], b[1]) for b in bad})) if bad else "layer-list-sites:%d" % sites,
+              bad[0][2] if bad else "src", "%d uses of %s.layers: entries are appended (push) and updated in place, never reordered, dropped or replaced" % (sites, short_owner),
+              "%s.layers is restructured by %s: the layer at a position is no longer the one the shapes, connections and optimizer slots were set up for"
+              % (short_owner, ["%s in %s" % (b[1], b[0]) for b in bad][:3]))
+
+
 def run(ctx):
+    ctx.guard("R10.1", "layer-positions", layer_list_stable, ctx, "R10.1", "feedback::Feedback")
     ctx.guard("R10.4", "layer-counts", r4c, ctx)
     ctx.guard("R10.4", "network-count", r4b, ctx)
     ctx.guard("R10.1", "create", r1, ctx)
     ctx.guard("R10.2", "update", r2, ctx)
     ctx.guard("R10.4", "parameters", r4, ctx)
-    ctx.floor("R10.1", 4, "")
+    ctx.floor("R10.1", 5, "")
     ctx.floor("R10.2", 18, "")
     ctx.floor("R10.3", 5 + 1 + 4 + 1, "")
     ctx.floor("R10.4", 12, "")
